@@ -9,7 +9,7 @@ from common import (coqchk, Rng, assumptions, coq_bytes, coq_eval, coq_make, har
 PROP = "C15"
 THEOREMS = ["C15_model_smoke", "C15_frame_shape", "C15_bytes_are_frames", "C15_batching_irrelevant", "C15_prefix_on_failure",
             "C15_overflow_requests_close", "C15_non_interference",
-            "C15_no_connection_ever_waits_for_a_message_buffer", "C15_buffers_in_use_bounded", "C15_unguarded_batches_starve_others_refuted", "C15_unguarded_stuck_until_the_stalled_write_ends", "C15_source_write_budget"]
+            "C15_no_connection_ever_waits_for_a_message_buffer", "C15_buffers_in_use_bounded", "C15_unguarded_batches_starve_others_refuted", "C15_unguarded_stuck_until_the_stalled_write_ends", "C15_source_write_budget", "C15_close_request_against_a_pending_write"]
 PRELUDE = ("From NW Require Import Base.Bytes Model.SchemaTypes Gen.Schema Model.Codec Model.Outbound Model.Server "
            "Conf.CodecConf Conf.OutboundConf.\n")
 
